@@ -406,6 +406,38 @@ func (c *Ctx) endpointCases() {
 			}
 		}
 	}
+	// Location x ResponseLocation for both endpoint types (ResponseLocation present/empty/absent)
+	respLocs := []string{"", "https://sp.example.com/slo-return", "javascript:alert(1)", "JavaScript:x", "data:x", "/relative", "http://ok/", " https://x/"}
+	for _, bnd := range allBindings {
+		for _, loc := range []string{"https://sp.example.com/slo", "javascript:alert(1)", "", "/rel"} {
+			for ri, rl := range respLocs {
+				var ep saml.Endpoint
+				x := `<E Binding="` + xmlAttrEsc(bnd) + `" Location="` + xmlAttrEsc(loc) + `" ResponseLocation="` + xmlAttrEsc(rl) + `"/>`
+				impl := "err"
+				if err := xml.Unmarshal([]byte(x), &ep); err == nil {
+					impl = "ok " + encBytes([]byte(ep.Location)) + " " + encBytes([]byte(ep.ResponseLocation))
+				}
+				c.emitOneWay("endpoint2", []string{encStr(bnd), encBytes([]byte(loc)), encBytes([]byte(rl))}, impl, "")
+				var iep saml.IndexedEndpoint
+				rattr := ` ResponseLocation="` + xmlAttrEsc(rl) + `"`
+				rtok := []string{"+", encBytes([]byte(rl))}
+				if ri == 0 && c.chance(0.5) {
+					rattr, rtok = "", []string{"-"}
+				}
+				x = `<E Binding="` + xmlAttrEsc(bnd) + `" Location="` + xmlAttrEsc(loc) + `"` + rattr + ` index="1"/>`
+				impl = "err"
+				if err := xml.Unmarshal([]byte(x), &iep); err == nil {
+					impl = "ok " + encBytes([]byte(iep.Location))
+					if iep.ResponseLocation == nil {
+						impl += " -"
+					} else {
+						impl += " + " + encBytes([]byte(*iep.ResponseLocation))
+					}
+				}
+				c.emitOneWay("endpoint3", joinToks([]string{encStr(bnd), encBytes([]byte(loc))}, rtok), impl, "")
+			}
+		}
+	}
 	// every endpoint-bearing element, Location and ResponseLocation, through samlsp.ParseMetadata
 	for _, bnd := range allBindings[:6] {
 		for _, loc := range locations {
